@@ -1,8 +1,11 @@
 """C03 - the response does not depend on when resolvers complete."""
 from __future__ import annotations
 
+import asyncio
 import itertools
 import json
+import types
+import zlib
 
 from . import common
 from .common import Check, Model
@@ -49,11 +52,66 @@ QUERIES = [
 FIELDS_OBJ = ["id", "name", "req", "bestFriend", "nnFriend", "friends", "nnFriends"]
 
 
+AWAITABLE_KINDS = ("future", "coroutine", "task", "object", "generator", "coroutine_cleanup")
+
+
+class AwaitableObject:
+    """An object that is awaitable only through __await__."""
+
+    def __init__(self, fut):
+        self.fut = fut
+
+    def __await__(self):
+        return self.fut.__await__()
+
+
+@types.coroutine
+def generator_awaitable(fut):
+    """A generator-based coroutine object (types.coroutine): awaitable without an __await__ attribute."""
+    return (yield from fut)
+
+
 class World:
     """Data served by callables; behaviour per response path decided by a table."""
 
-    def __init__(self, rng, ctl_holder, behaviours, log):
-        self.rng, self.h, self.b, self.log = rng, ctl_holder, behaviours, log
+    def __init__(self, rng, ctl_holder, behaviours, log, cleanup=3):
+        # cleanup: loop iterations a `coroutine_cleanup` resolver spends cleaning up when it is cancelled
+        self.rng, self.h, self.b, self.log, self.cleanup = rng, ctl_holder, behaviours, log, cleanup
+        self.kind_override = {}  # response path -> kind, for hand-written scenarios
+
+    def awaitable(self, path, fut):
+        """The awaitable a resolver returns for the controlled future `fut`: the KIND is a fixed function of the response
+        path, so every run of the same request uses the same kinds; all kinds must behave alike."""
+        kind = AWAITABLE_KINDS[zlib.crc32(repr(path).encode()) % len(AWAITABLE_KINDS)]
+        if len(path) == 1 and kind in ("future", "task"):
+            kind = "coroutine"  # root fields: always observable begin/end
+        kind = self.kind_override.get(path, kind)
+        self.kinds_used = getattr(self, "kinds_used", set()) | {kind}
+        if kind == "future":
+            return fut
+        if kind == "object":
+            return AwaitableObject(fut)
+        if kind == "generator":
+            return generator_awaitable(fut)
+        ticks = self.cleanup if kind == "coroutine_cleanup" else 0
+
+        async def coro(_f=fut, _p=path, _log=kind != "task"):
+            if _log:
+                self.log.append(("begin", _p))
+            try:
+                return await _f
+            except asyncio.CancelledError:
+                for _ in range(ticks):  # asynchronous cleanup on cancellation, e.g. a rollback
+                    await asyncio.sleep(0)
+                raise
+            finally:
+                if _log:
+                    self.log.append(("end", _p))
+        if kind == "task":
+            task = self.h[0].loop.create_task(coro())
+            task.add_done_callback(lambda t: t.cancelled() or t.exception())  # an abandoned task's error is not a verdict
+            return task
+        return coro()
 
     def leaf(self, kind):
         def fn(info, **_a):
@@ -80,17 +138,7 @@ class World:
             elif what == "raise":
                 exc = RuntimeError("boom@" + "/".join(map(str, path)))
             if mode == "async" and self.h[0] is not None:
-                fut = self.h[0].future(path, val, exc)
-                if len(path) % 3 == 0:
-                    return fut
-
-                async def coro(_f=fut, _p=path):
-                    self.log.append(("begin", _p))
-                    try:
-                        return await _f
-                    finally:
-                        self.log.append(("end", _p))
-                return coro()
+                return self.awaitable(path, self.h[0].future(path, val, exc))
             if exc is not None:
                 raise exc
             return val
